@@ -64,7 +64,7 @@ func replay(f lib.Flags) int {
 		if err := json.Unmarshal(b, &cs); err != nil {
 			lib.Fatal(err)
 		}
-		runCoreSeq(cs, nil, m, "")
+		runCoreSeq(cs, nil, m, nil)
 		fmt.Printf("replay core sequence of %d ops\n", len(cs.Ops))
 	default:
 		fmt.Println("replay: unknown input kind", in["kind"])
